@@ -80,6 +80,17 @@ func (im *impl) execPrint(h *vh.H, op string) string {
 		h.Count("print.bad-sexp")
 		return "bad-op"
 	}
+	if !supportedFile(file) {
+		// outside the fragment: the verdict is the result. The real walk still runs (oracles, statistics).
+		h.Count("print.unsupported")
+		r := im.r.Walk(string(name), string(src))
+		h.Count("print.unsupported.real-walk." + strings.SplitN(r.Line, " ", 2)[0])
+		for _, fl := range r.Fails {
+			h.Fail(fl.Sig, op, fl.Detail)
+		}
+		return "unsupported"
+	}
+	h.Count("print.supported")
 	tree := "1"
 	if j5sgen.PrintFile(file, file.DeclPkg, 0) != string(src) {
 		h.Count("print.text-is-not-the-plain-print")
@@ -111,24 +122,42 @@ type pgen struct {
 	h *vh.H
 }
 
-var printNames = []string{"", "a.j5s", "foo/bar/v1/x.j5s", "dir/", "a//b/c.j5s", "/abs/v1/f.j5s"}
+var printNames = []string{"", "a.j5s", "foo/bar/v1/x.j5s", "dir/", "a//b/c.j5s", "/abs/v1/f.j5s", "é/v1/ü.j5s", "\xff\xfe/v1/a.j5s"}
 
 func (g *pgen) next(i int) string {
 	h := g.h
 	c := h.Rng.IntN(100)
 	var f *j5sgen.File
 	var pkg string
+	origin := "tiny"
 	switch {
 	case c < 55:
-		h.Count("gen.print.j5sgen")
+		origin = "j5sgen"
 		f, pkg = g.generated()
 	default:
-		h.Count("gen.print.tiny")
 		f, pkg = g.tiny()
 	}
+	h.Count("gen.print." + origin)
 	name := f.Path
 	if h.Chance(1, 10) {
 		name = vh.Pick(h, printNames)
+	}
+	if h.Chance(1, 8) {
+		// a near miss: one change that leaves the fragment (both sides must answer `unsupported`)
+		if what := g.breakFile(f); what != "" {
+			h.Count("gen.print.near-miss." + what)
+			origin += "+near-miss"
+		}
+	}
+	// which share of each origin is inside the fragment (the coverage figure of notes/walker.md)
+	c2 := *f
+	if c2.DeclPkg == "" {
+		c2.DeclPkg = pkg
+	}
+	if supportedFile(&c2) {
+		h.Count("gen.print.supported." + origin)
+	} else {
+		h.Count("gen.print.unsupported." + origin)
 	}
 	for _, e := range f.Elems {
 		h.Count("gen.print.elem." + e.Kind)
@@ -172,7 +201,7 @@ func sp(s string) *string { return &s }
 
 var tinyNames = []string{"a", "fooId", "bar_baz", "x1", "name", "type", "object", "field", "ref", "true", "false", "string", "required"}
 var tinyTypes = []string{"Foo", "Bar", "Q", "Abc1Def", "HTTPThing", "object"}
-var tinyStrings = []string{"", "x", "^[a-z]+$", "a b", "with \"quote\"", "back\\slash", "a.b", "2020-01-01", "10.5", "{}", "// no comment", "| no description", "tab\there"}
+var tinyStrings = []string{"", "x", "^[a-z]+$", "a b", "with \"quote\"", "back\\slash", "a.b", "2020-01-01", "10.5", "{}", "// no comment", "| no description", "tab\there", "cr\rhere", "nul\x00.", "\\\"", "\\n"}
 var tinyPkgs = []string{"", "foo.v1", "other", "a.b.v2", "j5.list.v1"}
 
 func (g *pgen) str() string { return vh.Pick(g.h, tinyStrings) }
@@ -196,25 +225,26 @@ func (g *pgen) num() uint64 {
 
 type ruleSpec struct {
 	name string
-	kind string // i s b strs
+	kind string // target of the conversion: u64 i64 f64 b s strs
 }
 
-// the rule properties of every field type with the literal kind the walker converts (the `Rules`
-// schemas of j5.schema.v1); timestamp minimum / maximum are left out (the walker has no
-// conversion for timestamps)
+// the rule properties of every field type with the type the walker converts the literal to (the
+// `Rules` schemas of j5.schema.v1; the Lean side reads the same from the schema facts). Timestamp
+// minimum / maximum are left out (the walker has no conversion for timestamps); key, oneof and any
+// fields have no rule properties.
 var rulesOf = map[string][]ruleSpec{
-	j5sgen.FString:    {{"pattern", "s"}, {"minLength", "i"}, {"maxLength", "i"}},
-	j5sgen.FInteger:   {{"exclusiveMaximum", "b"}, {"exclusiveMinimum", "b"}, {"minimum", "i"}, {"maximum", "i"}, {"multipleOf", "i"}},
-	j5sgen.FFloat:     {{"exclusiveMaximum", "b"}, {"exclusiveMinimum", "b"}, {"minimum", "i"}, {"maximum", "i"}, {"multipleOf", "i"}},
+	j5sgen.FString:    {{"pattern", "s"}, {"minLength", "u64"}, {"maxLength", "u64"}},
+	j5sgen.FInteger:   {{"exclusiveMaximum", "b"}, {"exclusiveMinimum", "b"}, {"minimum", "i64"}, {"maximum", "i64"}, {"multipleOf", "i64"}},
+	j5sgen.FFloat:     {{"exclusiveMaximum", "b"}, {"exclusiveMinimum", "b"}, {"minimum", "f64"}, {"maximum", "f64"}, {"multipleOf", "f64"}},
 	j5sgen.FBool:      {{"const", "b"}},
-	j5sgen.FBytes:     {{"minLength", "i"}, {"maxLength", "i"}},
+	j5sgen.FBytes:     {{"minLength", "u64"}, {"maxLength", "u64"}},
 	j5sgen.FDecimal:   {{"minimum", "s"}, {"maximum", "s"}, {"exclusiveMinimum", "b"}, {"exclusiveMaximum", "b"}},
 	j5sgen.FDate:      {{"minimum", "s"}, {"maximum", "s"}, {"exclusiveMinimum", "b"}, {"exclusiveMaximum", "b"}},
 	j5sgen.FTimestamp: {{"exclusiveMinimum", "b"}, {"exclusiveMaximum", "b"}},
 	j5sgen.FEnum:      {{"in", "strs"}, {"notIn", "strs"}},
-	j5sgen.FArray:     {{"minItems", "i"}, {"maxItems", "i"}, {"uniqueItems", "b"}},
-	j5sgen.FMap:       {{"minPairs", "i"}, {"maxPairs", "i"}},
-	j5sgen.FObject:    {{"minProperties", "i"}, {"maxProperties", "i"}},
+	j5sgen.FArray:     {{"minItems", "u64"}, {"maxItems", "u64"}, {"uniqueItems", "b"}},
+	j5sgen.FMap:       {{"minPairs", "u64"}, {"maxPairs", "u64"}},
+	j5sgen.FObject:    {{"minProperties", "u64"}, {"maxProperties", "u64"}},
 }
 
 func (g *pgen) rules(kind string) []j5sgen.Rule {
@@ -230,11 +260,13 @@ func (g *pgen) rules(kind string) []j5sgen.Rule {
 		s := specs[i]
 		r := j5sgen.Rule{Name: s.name}
 		switch s.kind {
-		case "i":
+		case "u64", "f64":
 			r.Lit = j5sgen.Lit{Kind: "i", N: g.num()}
-			if kind == j5sgen.FInteger && h.Chance(1, 2) {
-				r.Lit.N = uint64(h.Rng.IntN(2147483647))
+			if h.Chance(1, 8) {
+				r.Lit.N = 18446744073709551615
 			}
+		case "i64":
+			r.Lit = j5sgen.Lit{Kind: "i", N: g.num()}
 		case "s":
 			r.Lit = j5sgen.Lit{Kind: "s", S: g.str()}
 		case "b":
@@ -523,7 +555,8 @@ func (g *pgen) tiny() (*j5sgen.File, string) {
 	}
 	for k := h.Rng.IntN(3); k > 0 && h.Chance(1, 2); k-- {
 		im := j5sgen.Import{Path: vh.Pick(h, []string{"other.v1", "a.b.v2", "x", "dir/file.proto", "a/b"})}
-		if h.Chance(1, 3) && !strings.Contains(im.Path, "/") {
+		if h.Chance(1, 3) {
+			// with a path string the printer drops the alias: it must not show up in the message either
 			im.Alias = vh.Pick(h, []string{"al", "dep0", "x"})
 		}
 		f.Imports = append(f.Imports, im)
